@@ -51,7 +51,37 @@ pub fn tex_type(t: &Tex) -> String {
     }
 }
 
-pub fn global_decl(g: &Global, structs: &[StructDef]) -> String {
+thread_local! {
+    static ALIAS_OCC: std::cell::RefCell<Vec<u32>> = const { std::cell::RefCell::new(Vec::new()) };
+}
+
+/// WGSL spelling of a type at a declaration site; selected occurrences go through an alias.
+pub fn tyw(ty: &Ty, sh: &Shader) -> String {
+    for (ai, a) in sh.aliases.iter().enumerate() {
+        if &a.ty == ty {
+            let k = ALIAS_OCC.with(|o| {
+                let mut o = o.borrow_mut();
+                if o.len() <= ai {
+                    o.resize(ai + 1, 0);
+                }
+                o[ai] += 1;
+                o[ai] - 1
+            });
+            if a.uses >> (k % 32) & 1 == 1 {
+                return a.name.clone();
+            }
+            break;
+        }
+    }
+    match ty {
+        Ty::A(e, n) => format!("array<{}, {}>", tyw(e, sh), n),
+        Ty::RA(e) => format!("array<{}>", tyw(e, sh)),
+        _ => ty.wgsl(&sh.structs),
+    }
+}
+
+pub fn global_decl(g: &Global, sh: &Shader) -> String {
+    let structs = &sh.structs;
     let attr = match g.binding {
         Some((gr, b)) => format!("@group({}) @binding({}) ", index_lit(gr), index_lit(b)),
         None => String::new(),
@@ -66,14 +96,15 @@ pub fn global_decl(g: &Global, structs: &[StructDef]) -> String {
                 Space::Workgroup => "<workgroup>",
                 Space::Push => "<push_constant>",
             };
-            format!("{attr}var{sp} {}: {};", g.name, ty.wgsl(structs))
+            let _ = structs;
+            format!("{attr}var{sp} {}: {};", g.name, tyw(ty, sh))
         }
         GKind::Tex(t) => format!("{attr}var {}: {};", g.name, tex_type(t)),
         GKind::Samp { cmp } => format!("{attr}var {}: {};", g.name, if *cmp { "sampler_comparison" } else { "sampler" }),
     }
 }
 
-fn member_decl(m: &Member, structs: &[StructDef]) -> String {
+fn member_decl(m: &Member, sh: &Shader) -> String {
     let mut s = String::new();
     match &m.io {
         Io::None => {}
@@ -91,7 +122,7 @@ fn member_decl(m: &Member, structs: &[StructDef]) -> String {
     if let Some(z) = m.size_attr {
         write!(s, "@size({z}) ").unwrap();
     }
-    write!(s, "{}: {},", m.name, m.ty.wgsl(structs)).unwrap();
+    write!(s, "{}: {},", m.name, tyw(&m.ty, sh)).unwrap();
     s
 }
 
@@ -229,6 +260,7 @@ pub fn render(sh: &Shader) -> String {
     // every module-scope declaration is rendered into its own item; items are then emitted in
     // canonical or permuted order
     let mut items: Vec<(bool, String)> = Vec::new();
+    ALIAS_OCC.with(|o| o.borrow_mut().clear());
     macro_rules! item {
         ($is_global:expr, $body:expr) => {{
             let mut out = String::new();
@@ -243,10 +275,13 @@ pub fn render(sh: &Shader) -> String {
         item!(false, |out: &mut String| {
         writeln!(out, "struct {} {{", sd.name).unwrap();
         for m in &sd.members {
-            writeln!(out, "    {}", member_decl(m, &sh.structs)).unwrap();
+            writeln!(out, "    {}", member_decl(m, sh)).unwrap();
         }
         writeln!(out, "}}").unwrap();
         });
+    }
+    for a in &sh.aliases {
+        item!(false, |out: &mut String| writeln!(out, "alias {} = {};", a.name, a.ty.wgsl(&sh.structs)).unwrap());
     }
     for c in &sh.consts {
         item!(false, |out: &mut String| writeln!(out, "const {}{};", c.name, c.decl).unwrap());
@@ -266,7 +301,7 @@ pub fn render(sh: &Shader) -> String {
         (0..sh.globals.len()).collect()
     };
     for gi in order {
-        item!(true, |out: &mut String| writeln!(out, "{}", global_decl(&sh.globals[gi], &sh.structs)).unwrap());
+        item!(true, |out: &mut String| writeln!(out, "{}", global_decl(&sh.globals[gi], sh)).unwrap());
     }
     for f in &sh.funcs {
         item!(false, |out: &mut String| {
@@ -307,13 +342,13 @@ pub fn render(sh: &Shader) -> String {
             .iter()
             .map(|p| match p {
                 EParam::Struct { name, st } => format!("{}: {}", name, sh.structs[*st].name),
-                EParam::Builtin { name, builtin, ty } => format!("@builtin({}) {}: {}", builtin, name, ty.wgsl(&sh.structs)),
+                EParam::Builtin { name, builtin, ty } => format!("@builtin({}) {}: {}", builtin, name, tyw(ty, sh)),
                 EParam::Loc { name, loc, ty, flat } => format!(
                     "@location({}) {}{}: {}",
                     loc,
                     if *flat { "@interpolate(flat) " } else { "" },
                     name,
-                    ty.wgsl(&sh.structs)
+                    tyw(ty, sh)
                 ),
             })
             .collect();
